@@ -61,11 +61,16 @@ def emissions(b):
     return acc, out
 
 
-def guard_unreserved_of(b, blk, byte_local):
-    """Is blk guarded (true edge) by is_rfc3986_unreserved(x) with x a copy of byte_local?"""
+def guard_unreserved_of(b, blk, byte_local, operand=None):
+    """Is blk guarded (true edge) by is_rfc3986_unreserved(x) with x a copy of byte_local - or, for a `match bytes[i] { c
+    if is_rfc3986_unreserved(c) => push(c) }`, another copy of the very same indexed place?"""
+    op_ = b.origin_def(operand) if operand is not None else None
     for a, s, c, truth in guard_conditions(b, blk):
         if c["kind"] == "call" and re.search(r"canonical::is_rfc3986_unreserved$", c["callee"]) and truth is True:
             if root_local(b, c["term"]["args"][0]) == byte_local:
+                return True
+            og_ = b.origin_def(c["term"]["args"][0])
+            if op_ and og_ and op_[0] == "place" and og_[0] == "place" and op_[1] == og_[1] and place_index_locals(op_[1]):
                 return True
     return False
 
@@ -142,7 +147,7 @@ def r2(ctx):
             l = root_local(b, o)
             sl = b.slice([l])
             is_decoded = sl.has_call(r"^hex::decode$")
-            if not guard_unreserved_of(b, blk, l):
+            if not guard_unreserved_of(b, blk, l, o):
                 bad = True
                 yield VIOL("C09-R2", "normalize_uri_element/unguarded-literal:%s" % ("decoded" if is_decoded else "raw"), "a %s byte is copied to the output without `is_rfc3986_unreserved` of that byte holding" % ("decoded" if is_decoded else "raw input"), where=b.span_of_block(blk))
                 continue
@@ -168,6 +173,12 @@ def r2(ctx):
                     subj = cnd["l"] if op_const(cnd["l"]) is None else cnd["r"]
                     ssl = b.slice_op(subj)
                     if root_local(b, subj) == raw_byte and not ssl.has_call(r"^hex::decode$"):
+                        okp = True
+                # `match bytes[i] { .., b'+' => .. }`: the switch is on the indexed input byte itself, edge value 43
+                if cnd["kind"] == "place" and place_index_locals(cnd["place"]) and b.term(a)["k"] == "switch":
+                    edge = [v for v, bb in b.term(a)["targets"] if bb == s and v is not None]
+                    psl = b.slice([cnd["place"]["local"]])
+                    if edge == [43] and param_by_name(b, "uri_el") in psl.locals and not psl.has_call(r"^hex::decode$"):
                         okp = True
             if not okp:
                 bad = True
@@ -595,4 +606,10 @@ def preset_results(ctx, rule):
 @M.rule("C09-R8", "the option presets select the mode their name says")
 def r8(ctx):
     for r in preset_results(ctx, "C09-R8"):
+        yield r
+
+
+@M.rule("C09-R9", "wrappers around the entry point hand the caller's configuration on unchanged")
+def r_wrappers(ctx):
+    for r in wrapper_results(ctx, "C09-R9", (6,), VIOL, PASS, 'canonicalisation runs in a mode the caller did not ask for'):
         yield r
